@@ -1282,4 +1282,60 @@ example : pySplit (fun _ => true) (S "HTTP://User@[::1]:8080/a?b#c") = some (S "
     pySplit (fun _ => true) (S "http://[::1/") = none ∧
     pySplit (fun _ => true) (S " \thttp:/x") = some (S "http", [], S "/x") := by decide +kernel
 
+/-! ### audit round 6: non-vacuity witnesses for the edit theorems and for the final url theorems -/
+
+private def h2req : Req :=
+  { h2 := true, method := S "GET", scheme := S "https", host := S "start.example", port := 443, path := S "/",
+    hostHeader := some (S "start.example"), authority := S "start.example" }
+
+/-- `host_port_edit_…`: an HTTP/2 request with Host header AND authority gets a new host; both now name `new.example` -/
+example : Consistent (fun _ => true) (applyEdit asciiLib h2req (.host (S "new.example"))) ∧
+    (applyEdit asciiLib h2req (.host (S "new.example"))).hostHeader = some (S "new.example") ∧
+    (applyEdit asciiLib h2req (.host (S "new.example"))).authority = S "new.example" :=
+  ⟨(host_port_edit_keeps_host_header_and_authority_pointing_to_destination asciiLib (fun _ => true) h2req
+      (.host (S "new.example")) (by intro u h; cases h) (by intro x hx; exact hx)
+      ⟨⟨by decide +kernel, by decide +kernel, by decide +kernel, by decide +kernel⟩, rfl, by decide +kernel, rfl⟩).1,
+   by decide +kernel, by decide +kernel⟩
+
+/-- a port edit to a non-default port on an IPv6 destination: the Host header becomes `[::1]:8443` and parses back -/
+example : Consistent (fun _ => true) (applyEdit asciiLib { h2req with host := S "::1" } (.port 8443)) ∧
+    (applyEdit asciiLib { h2req with host := S "::1" } (.port 8443)).hostHeader = some (S "[::1]:8443") :=
+  ⟨(host_port_edit_keeps_host_header_and_authority_pointing_to_destination asciiLib (fun _ => true) _
+      (.port 8443) (by intro u h; cases h) (by intro x hx; exact hx)
+      ⟨⟨by decide +kernel, by decide +kernel, by decide +kernel, by decide +kernel⟩, rfl, by decide +kernel, rfl⟩).1,
+   by decide +kernel⟩
+
+/-- `edit_history_…` on a real history: an accepted url edit, a port edit, then a host edit -/
+example : Consistent (fun _ => true)
+    (applyEdits asciiLib req0 ([.url (S "http://[::1]:8080/a"), .port 9] ++ [.host (S "example.org")])) ∧
+    (applyEdits asciiLib req0 ([.url (S "http://[::1]:8080/a"), .port 9] ++ [.host (S "example.org")])).hostHeader
+      = some (S "example.org:9") :=
+  ⟨(edit_history_keeps_host_header_and_authority_pointing_to_destination asciiLib (fun _ => true) req0
+      [.url (S "http://[::1]:8080/a"), .port 9] (.host (S "example.org")) (by intro u h; cases h)
+      (by intro x hx; exact hx)
+      ⟨⟨by decide +kernel, by decide +kernel, by decide +kernel, by decide +kernel⟩, rfl, by decide +kernel, rfl⟩).1,
+   by decide +kernel⟩
+
+/-- `url_get_set_idempotent_final` and `url_read_back_equivalent`: hypotheses hold for `http://[::1]:8080/a;x?b=c#` -/
+example : setUrl (pyLib (withRest okLib)) ((setUrl (pyLib (withRest okLib)) req0 (S "http://[::1]:8080/a;x?b=c#")).getD req0)
+      (url ((setUrl (pyLib (withRest okLib)) req0 (S "http://[::1]:8080/a;x?b=c#")).getD req0)) =
+    some ((setUrl (pyLib (withRest okLib)) req0 (S "http://[::1]:8080/a;x?b=c#")).getD req0) :=
+  url_get_set_idempotent_final okLib (fun a b _ h _ => by cases h; rfl) req0 (S "http://[::1]:8080/a;x?b=c#") _ (by decide +kernel)
+    { notConnect := by decide +kernel, scheme := by decide +kernel,
+      host := ⟨⟨by decide +kernel, by decide +kernel, by decide +kernel, by decide +kernel⟩, by decide +kernel, by decide +kernel,
+               by decide +kernel⟩,
+      bracketedOk := fun _ => rfl }
+
+example : urlParse (pyLib (withRest okLib)) (url ((setUrl (pyLib (withRest okLib)) req0 (S "http://[::1]:8080/a;x?b=c#")).getD req0)) =
+    urlParse (pyLib (withRest okLib)) (S "http://[::1]:8080/a;x?b=c#") :=
+  url_read_back_equivalent okLib (fun a b _ h _ => by cases h; rfl) req0 (S "http://[::1]:8080/a;x?b=c#") _ (by decide +kernel)
+    { notConnect := by decide +kernel, scheme := by decide +kernel,
+      host := ⟨⟨by decide +kernel, by decide +kernel, by decide +kernel, by decide +kernel⟩, by decide +kernel, by decide +kernel,
+               by decide +kernel⟩,
+      bracketedOk := fun _ => rfl }
+
+/-- …and the URL read back is a different string from the one assigned (the theorem is about equivalence, not identity) -/
+example : url ((setUrl (pyLib (withRest okLib)) req0 (S "http://[::1]:8080/a;x?b=c#")).getD req0) = S "http://[::1]:8080/a;x?b=c" := by
+  decide +kernel
+
 end MitmVerif.Props.C33
